@@ -40,7 +40,7 @@ Definition rt_new (ka_ms : N) : runtime :=
 
 Definition session_new (c : config) : session :=
   {| s_cfg := c; s_client_id := cf_client_id c; s_reader := reader_new (cf_rx c); s_ob := ob_new (cf_tx c);
-     s_pid := 1; s_gen := 0; s_sp := false; s_srv := []; s_rt := rt_new (cf_keepalive_s c * 1000) |}.
+     s_pid := 1; s_gen := 0; s_sp := false; s_srv := []; s_rt := rt_new ((cf_keepalive_s c mod 65536) * 1000) |}.   (* the API takes a u16 *)
 
 (* record updates *)
 Definition set_rt (s : session) (r : runtime) : session :=
@@ -303,7 +303,7 @@ Definition connack_process (s : session) (p : option rpacket) (now : N) : sessio
       if negb (rc_success rc) then (s, CAErr (ERejected rc) false) else
       let local_quota := N.min MAX_RETAINED MAX_PENDING_RELEASE in
       let a0 := {| ca_quota := local_quota; ca_maxquota := local_quota; ca_maxqos := None; ca_mps := None;
-                   ca_ka_ms := cf_keepalive_s (s_cfg s) * 1000; ca_cid := None |} in
+                   ca_ka_ms := (cf_keepalive_s (s_cfg s) mod 65536) * 1000; ca_cid := None |} in
       match connack_props (props_iter_encoded props) local_quota a0 with
       | None => (s, CAErr EInvalidPacket true)
       | Some a =>
